@@ -136,11 +136,44 @@ def check_setwise(res, tier, shard, nshards):
     return problems
 
 
-NSHARDS = 64
+NSHARDS = 64  # (MatchesSetwise instances)
+NCHUNKS = 384
+THOROUGH_CAP = 20000
+
+# The expression list is built ONCE, in the parent, before the workers are forked (they share it
+# copy-on-write and each looks at contiguous chunks only): enumerating it costs more than checking
+# a chunk does.
+_STATE = {}
+
+
+def _enumerate(tier, sc):
+    if tier == "quick":
+        return X.enumerate_exprs(2, sc)
+    return X.enumerate_exprs(3, sc, cap_per_type=THOROUGH_CAP)
+
+
+def _prepare(tier):
+    st = _STATE.get(tier)
+    if st is None:
+        import atexit
+        import os
+
+        sc = X.Scratch(tempfile.mkdtemp(prefix="vt-c06-"))
+        owner = os.getpid()
+
+        def _cleanup():
+            if os.getpid() == owner:
+                sc.cleanup()
+
+        atexit.register(_cleanup)
+        st = _STATE[tier] = (sc, X.domains(sc), _enumerate(tier, sc))
+    return st
 
 
 def shards(tier):
-    return list(range(NSHARDS))
+    n = len(_prepare(tier)[2])
+    step = max(1, -(-n // NCHUNKS))
+    return [("exprs", lo, min(n, lo + step)) for lo in range(0, n, step)] + [("setwise", i) for i in range(NSHARDS)]
 
 
 def run_shard(shard, tier, seed):
@@ -148,37 +181,31 @@ def run_shard(shard, tier, seed):
 
     warnings.simplefilter("ignore")  # matchees emit warnings on purpose
     res = ShardResult()
-    sc = X.Scratch(tempfile.mkdtemp(prefix="vt-c06-"))
-    try:
-        doms = X.domains(sc)
-        if tier == "quick":
-            exprs = X.enumerate_exprs(2, sc)
-        else:
-            exprs = X.enumerate_exprs(3, sc, cap_per_type=2500)
-        mine = exprs[shard::NSHARDS]
-        shown = {}
-        for e in mine:
-            problems = check_expr(e, doms, res)
-            res.states += 1
-            if e.depth >= 1:
-                res.distinct.add(obs_hash(e.name))
-            for clause, msg in problems:
-                fp = "C06/%s" % clause
-                if "MatchesSetwise" in e.name and clause == "verdict":
-                    fp = "C06/setwise-greedy"
-                if "MatchesPredicate" in e.name and clause == "match-raised":
-                    fp = "C06/match-raised/MatchesPredicate-tuple"
-                res.violation(fp, msg, {"expr": e.name})
-        for clause, msg in check_setwise(res, tier, shard, NSHARDS):
+    if shard[0] == "setwise":
+        for clause, msg in check_setwise(res, tier, shard[1], NSHARDS):
             fp = "C06/setwise-greedy" if clause.startswith("setwise") else "C06/%s" % clause
             res.violation(fp, msg, {"setwise": msg})
-        if mine:
-            res.add_sample({"expression": mine[len(mine) // 2].name, "values": [repr(v)[:60] for v in X.values_for(mine[len(mine) // 2], doms)]})
         res.traces_validated = res.evaluations
-        res.notes["expressions_total"] = len(exprs)
-        res.notes["max_depth"] = max(e.depth for e in exprs)
-    finally:
-        sc.cleanup()
+        return res
+    sc, doms, exprs = _prepare(tier)
+    mine = exprs[shard[1] : shard[2]]
+    for e in mine:
+        problems = check_expr(e, doms, res)
+        res.states += 1
+        if e.depth >= 1:
+            res.distinct.add(obs_hash(e.name))
+        for clause, msg in problems:
+            fp = "C06/%s" % clause
+            if "MatchesSetwise" in e.name and clause == "verdict":
+                fp = "C06/setwise-greedy"
+            if "MatchesPredicate" in e.name and clause == "match-raised":
+                fp = "C06/match-raised/MatchesPredicate-tuple"
+            res.violation(fp, msg, {"expr": e.name, "tier": tier})
+    if mine and shard[1] % 7 == 0:
+        res.add_sample({"expression": mine[len(mine) // 2].name, "values": [repr(v)[:60] for v in X.values_for(mine[len(mine) // 2], doms)]})
+    res.traces_validated = res.evaluations
+    res.notes["expressions_total"] = len(exprs)
+    res.notes["max_depth"] = max(e.depth for e in mine) if mine else 0
     return res
 
 
@@ -186,7 +213,7 @@ def meta(tier):
     return {
         "technique": MANIFEST_INFO["technique"],
         "rule": "states = expression trees (plus MatchesSetwise (matchers, values) instances); evaluations = match() calls compared with the reference; non-trivial = trees of depth >= 1; distinct = distinct expression texts",
-        "bounds": {"depth": 2 if tier == "quick" else 3, "cap_per_type_per_level": None if tier == "quick" else 2500, "setwise_matchers": 3, "setwise_values": 3},
+        "bounds": {"depth": 2 if tier == "quick" else 3, "cap_per_type_per_level": None if tier == "quick" else THOROUGH_CAP, "setwise_matchers": 3, "setwise_values": 3},
         "assumptions": MANIFEST_INFO["level_note"].split("; "),
     }
 
@@ -201,11 +228,12 @@ def replay(data):
                 p.extend(check_setwise(res, "quick", s, NSHARDS))
             return (not p), "\n".join(m for _, m in p[:10])
         doms = X.domains(sc)
-        for e in X.enumerate_exprs(3, sc, cap_per_type=2500):
-            if e.name == data["expr"]:
-                res = ShardResult()
-                p = check_expr(e, doms, res)
-                return (not p), "expr=%s\nproblems=%r" % (e.name, p)
+        for tier in dict.fromkeys([data.get("tier", "quick"), "quick", "thorough"]):
+            for e in _enumerate(tier, sc):
+                if e.name == data["expr"]:
+                    res = ShardResult()
+                    p = check_expr(e, doms, res)
+                    return (not p), "expr=%s\nproblems=%r" % (e.name, p)
         return True, "expression not found"
     finally:
         sc.cleanup()
